@@ -19,7 +19,7 @@ func init() {
 			"(R1.1) every create-capable write of a composed resource is reached only over the success edge of the XR write that persists the resource references; (R1.2) that write is reached only over the success edge of garbage collection / template association; " +
 			"(R1.3) an object enters the desired collection only after its name was allocated (or was already set), and the name generator never renames; (R1.4) an existing resource's name and namespace are inherited before a name is generated, RenderFromJSON restores them; " +
 			"(R1.5) the reference array is sorted before it is set; (R1.6) references and applied objects derive from the same collection; (R1.7) the observer and the associator skip a referenced resource only for the three stated reasons (no name, not found by the uncached read, foreign controller) and return every other read error. " +
-			"Invariant argued in DESIGN.md §2 C01: 'live ∧ controlled by the XR ⇒ listed in spec.resourceRefs' is preserved by every instruction under the assumption that each API call is atomic and an acknowledged write is durable. R1.8 also covers the stamp itself: SetCompositionResourceName writes the supplied name on every path (an annotation the rendered body already carries never wins).",
+			"Invariant argued in DESIGN.md §2 C01: 'live ∧ controlled by the XR ⇒ listed in spec.resourceRefs' is preserved by every instruction under the assumption that each API call is atomic and an acknowledged write is durable. R1.8 also covers the stamp itself: SetCompositionResourceName writes the supplied name on every path (an annotation the rendered body already carries never wins). (R1.9) in the managed-fields upgrade every loop-carried 'found' flag is sticky: once set by an element of managedFields it is never reset by a later one.",
 		NotDecided:  []string{"that the API server persists what it acknowledged; a crash during a call", "cache staleness of the XR read", "collisions of generated names", "quiescence beyond the sorted reference array", "P&T anonymous templates (excluded by the property)"},
 		Assumptions: []string{"each API call is atomic and acknowledged writes are durable", "interface calls resolve to the production implementations wired by NewFunctionComposer/NewPTComposer"},
 	})
